@@ -1318,7 +1318,11 @@ VmTrap vm_core_execute(VmState *vm) {
                 return trap_error(vm, VM_ERR_TYPE_ERROR, "ARR_REMOVE: not an array");
             }
             uint32_t idx = (uint32_t)(idx_v.tag == TAG_INT ? idx_v.as.i64 : 0);
+            /* the array owns one reference to each element: drop the removed one's
+             * (vm_array_get yields void when idx is out of range) */
+            NanoValue removed = vm_array_get(arr.as.array, idx);
             vm_array_remove(arr.as.array, idx);
+            vm_release(&vm->heap, removed);
             stack_push(vm, arr);
             break;
         }
